@@ -23,7 +23,7 @@ SET_CONFIGURATION at a random place - then a data phase of 50..130 randomly sche
   transactions.  The data endpoints share one endpoint number, so "IN data not ACKed, then OUT to the same number, then
   the IN retry" is generated on purpose.  Stream side: producer gaps (full rate / sparse / bursty), `last` at transfer
   ends (aimed at full packets so that ZLPs occur), consumer ready profiles and directed long blocks (so that the
-  receive FIFO fills and OUT packets are NAKed and retried).  30 % of the sessions end with a re-configuration
+  receive FIFO fills and OUT packets are NAKed and retried).  35 % of the sessions end with a re-configuration
   (SET_CONFIGURATION again, or bus reset + SET_ADDRESS + SET_CONFIGURATION) followed by more data: the host then
   restarts all data toggles at DATA0 (USB 2.0 9.1.1.5).  Finally everything is drained.
 
@@ -49,6 +49,7 @@ Oracle (independent; nothing is taken from luna):
     packets <= wMaxPacketSize with good CRC; a packet the host did not ACK is repeated unchanged; every IN token is
     answered by data or NAK; after the drain nothing is missing.
   * the notification endpoint answers NAK; nothing is transmitted for other addresses.
+  * while `connect` is high the device presents itself to the host (UTMI term_select high = full-speed pull-up).
 
 Mechanism names describe the symptom.  Two history patterns have their own names because they are defects of the
 unchanged tree (findings/C57.md): `out_toggle_not_reset_by_<set_configuration|bus_reset>` and
@@ -87,7 +88,7 @@ REQUIRED_BINS = ["mps_8", "mps_16", "mps_32", "mps_64", "mode_separate", "mode_l
                  "reconf_set_configuration", "reconf_bus_reset", "descriptor_reread_in_data_phase", "class_0x20_device_to_host"]
 REQUIRED_EVENTS = ["sessions", "descriptors_validated", "strings_validated", "control_transfers", "stalls_judged",
                    "set_line_codings_judged", "out_packets_acked", "rx_bytes_checked", "tx_bytes_accepted", "in_packets_accepted",
-                   "in_bytes_checked", "notify_naks", "device_packets_seen", "drains_completed", "cycles_monitored"]
+                   "in_bytes_checked", "notify_naks", "device_packets_seen", "drains_completed", "cycles_monitored", "cycles_presented_to_host"]
 ASSUMPTIONS = [
     "legal host: one transaction at a time, waits for the answer or the response window, bulk traffic only while configured",
     "host timing: 2-8 idle cycles between transactions, ACK 1-4 cycles after a device packet, device answers within 40 cycles",
@@ -273,6 +274,12 @@ class Session:
     def monitor(self, b):
         dev = self.dev
         self.res.event("cycles_monitored")
+        if b.cycle > 16:
+            # `connect` is held high by the harness: the device has to present itself (full-speed pull-up = UTMI TermSelect)
+            if b.get(self.utmi.term_select):
+                self.res.event("cycles_presented_to_host")
+            elif not self.failed:
+                self.viol("not_presented_to_host", "cycle %d: connect is asserted but UTMI term_select is low (no pull-up, a host never sees the device)" % b.cycle)
         if b.get(dev.rx.valid) and b.get(dev.rx.ready):
             self.on_rx(b.get(dev.rx.payload))
         if b.get(dev.tx.valid) and b.get(dev.tx.ready):
@@ -1126,7 +1133,7 @@ class Session:
             busy = (self.out_remaining() or self.in_seen < len(self.src) or self.in_unacked is not None
                     or (not self.loop and self.tx_sent < len(self.tx_plan)))
             idle = 0 if busy else idle + 1
-            if idle > 12:
+            if idle > 30:
                 return
             r = rng.random()
             if r < 0.80:
@@ -1198,7 +1205,7 @@ class Session:
         if self.failed:
             return
         # the two tails below come after everything else has been judged (they run into defects of the unchanged tree)
-        if rng.random() < 0.3:
+        if rng.random() < 0.35:
             yield from self.reconfigure()
             if self.failed:
                 return
@@ -1231,7 +1238,7 @@ def run_case(rng, tier, res):
     b = Bench(top, domain="usb", freq=60e6, max_cycles=120000)
     host = UTMIHost(b, utmi, rng, timing="fs12", ready_profile=cfg["ready_profile"], gap_profile=cfg["gap_profile"])
     ses = Session(b, host, rng, res, cfg, top, dev, utmi)
-    b.watch(dev.rx.valid, dev.rx.ready, dev.rx.payload, dev.tx.valid, dev.tx.ready, dev.tx.payload)
+    b.watch(dev.rx.valid, dev.rx.ready, dev.rx.payload, dev.tx.valid, dev.tx.ready, dev.tx.payload, utmi.term_select)
     res.bin("mps_%d" % cfg["mps"])
     res.bin("mode_" + cfg["mode"])
     res.sig(sorted(cfg.items()), ses.out_packets, ses.out_plan, ses.tx_plan)
